@@ -73,25 +73,46 @@ def _skip(
     expr: Expression,
     rules: Mapping[str, Rule],
     subs: list[str],
-    seen: frozenset[str] = frozenset(),
 ) -> SkipUntil | None:
-    if isinstance(expr, Group):
-        expr = expr.expression
+    """Collect the stop strings of `expr` in `subs`, following rule references.
 
-    if isinstance(expr, Choice):
-        for ex in expr.expressions:
-            inlined_subs = _skip(ex, rules, subs, seen)
-            if not inlined_subs:
+    Uses an explicit stack, and expands every rule once, so that neither long
+    chains nor repeated references to the same rule are a problem.
+    """
+    active: set[str] = set()  # Rules being expanded; a reference to one is a cycle.
+    done: set[str] = set()  # Rules that have been expanded already.
+    found = set(subs)
+    todo: list[Expression | str] = [expr]
+
+    while todo:
+        item = todo.pop()
+
+        if isinstance(item, str):
+            # All of rule `item` has been expanded.
+            active.discard(item)
+            done.add(item)
+            continue
+
+        if isinstance(item, Group):
+            item = item.expression
+
+        if isinstance(item, Choice):
+            todo.extend(reversed(item.expressions))
+        elif isinstance(item, String):
+            if item.value not in found:
+                found.add(item.value)
+                subs.append(item.value)
+        elif isinstance(item, Identifier):
+            name = item.value
+            if name in done:
+                continue
+            rule = rules.get(name)
+            if rule is None or name in active:
                 return None
-        return SkipUntil(subs)
+            active.add(name)
+            todo.append(name)
+            todo.append(rule.expression)
+        else:
+            return None
 
-    if isinstance(expr, String):
-        subs.append(expr.value)
-        return SkipUntil(subs)
-
-    if isinstance(expr, Identifier) and expr.value not in seen:
-        rule = rules.get(expr.value)
-        if rule:
-            return _skip(rule.expression, rules, subs, seen | {expr.value})
-
-    return None
+    return SkipUntil(subs)
